@@ -1,7 +1,339 @@
 import Driver.Common
-open Lean Drv
+import NriModel.StubSession
+/-!
+Driver for C16. One case = one history executed against the real stub:
+`in = {kind:"hist", ops:[{op, script:{kind,dir,k,ctxms,pods}}…], excluded, stream}`,
+`obs = {recs:[…], worker, detail}`; `recs` is the observed history in one global order
+(`call`/`ret` of every operation, `notify sid` = the close handler of session `sid` has run
+to completion, `onclose` = the plugin's callback ran, `cut` = the scripted runtime end
+dropped connection `conn` with `facts` = how far the exchange had got, `end`).
+
+* `agree` — trace acceptance: the observed history is a run of the repaired session machine
+  (`Nri.StubSession.step? fixed`), where each operation takes effect at some point between
+  its call and its return and each pending close notification at some point before its
+  `notify` record (all placements are explored).
+* `spec` — the five predicates of C16 evaluated directly on the records, without the model.
+-/
+open Lean Drv Nri Nri.StubSession
+
 namespace Drv.C16
-/-- placeholder until the property's driver is written -/
-def judge (_ : Json) : Except String Verdict := .error "C16 driver not implemented"
+
+structure Facts where
+  wrRt : Nat := 0
+  wrPlug : Nat := 0
+  rdRt : Nat := 0
+  rdPlug : Nat := 0
+deriving Repr
+
+structure Rec where
+  t : String
+  op : String := ""
+  i : Nat := 0
+  res : String := ""
+  kind : String := ""
+  dialed : Bool := false
+  conn : Nat := 0
+  sid : Nat := 0
+  down : Bool := false
+  facts : Option Facts := none
+  waitsLeft : Nat := 0
+  clients : Nat := 0
+deriving Repr, Inhabited
+
+structure OpIn where
+  op : String
+  script : String := ""
+  dir : String := ""
+  k : Nat := 0
+deriving Repr
+
+def decodeRec (j : Json) : Except String Rec := do
+  let t ← getStr j "t"
+  let facts : Option Facts := match getOpt j "facts" with
+    | some f => some { wrRt := getNatD f "wr_rt", wrPlug := getNatD f "wr_plug",
+                       rdRt := getNatD f "rd_rt", rdPlug := getNatD f "rd_plug" }
+    | none => none
+  pure { t := t, op := getStrD j "op", i := getNatD j "i", res := getStrD j "res",
+         kind := getStrD j "kind", dialed := getBoolD j "dialed", conn := getNatD j "conn",
+         sid := getNatD j "sid", down := getBoolD j "down", facts := facts,
+         waitsLeft := getNatD j "waits_left", clients := getNatD j "clients" }
+
+def decodeOp (j : Json) : Except String OpIn := do
+  let op ← getStr j "op"
+  let sc := match getOpt j "script" with | some s => s | none => Json.mkObj []
+  pure { op := op, script := getStrD sc "kind", dir := getStrD sc "dir", k := getNatD sc "k" }
+
+/-- stage of a drop, from what the runtime end had completely written when it hung up -/
+def stageOf (f : Facts) : Script :=
+  if f.wrPlug ≥ 1 then .dropLate else if f.wrRt ≥ 1 then .dropCfg else .dropReg
+
+def scriptName : Script → String
+  | .dialFail => "dialFail" | .refuse => "refuse" | .noAnswer => "noAnswer"
+  | .dropReg => "dropReg" | .dropCfg => "dropCfg" | .dropLate => "dropLate"
+  | .cfgErr => "cfgErr" | .ok => "ok" | .stall => "stall"
+
+def parseScript (s : String) : Option Script :=
+  match s with
+  | "dialFail" => some .dialFail | "refuse" => some .refuse | "refuseKeep" => some .refuse
+  | "noAnswer" => some .noAnswer | "cfgErr" => some .cfgErr | "ok" => some .ok
+  | "stall" => some .stall | "cut" => some .ok
+  | _ => none
+
+def parseRes (res kind : String) : Option StartRes :=
+  match res, kind with
+  | "ok", _ => some .ok
+  | "blocked", _ => some .blocked
+  | "err", "already" => some (.err .already)
+  | "err", "dial" => some (.err .dial)
+  | "err", "register" => some (.err .register)
+  | "err", "closed" => some (.err .closed)
+  | "err", "configure" => some (.err .configure)
+  | _, _ => none
+
+/-- index of the first record at or after `from` satisfying `p` -/
+def findFrom (rs : Array Rec) (start : Nat) (p : Rec → Bool) : Option Nat :=
+  (List.range (rs.size - start)).map (· + start) |>.find? fun j => match rs[j]? with
+    | some r => p r | none => false
+
+/-- The operation between a `call` record and its `ret`, as observed. -/
+def mkObs (op : String) (script : Script) (ret : Rec) : OpObs :=
+  match op with
+  | "start" =>
+    match parseRes ret.res ret.kind with
+    | some r => .start script r ret.dialed ret.sid ret.conn
+    | none => .impossible
+  | "stop" => if ret.res == "returned" then .stop else .impossible
+  | "wait" =>
+    if ret.res == "returned" then .wait true
+    else if ret.res == "pending" then .wait false
+    else .impossible
+  | "lose" => if ret.res == "closed" then .lose ret.conn else .nop
+  | "await" | "pause" => .nop
+  | "dispatch" | "update" => .request (ret.res == "ok")
+  | _ => .impossible
+
+structure Nfa where
+  cfgs : List Cfg
+  pending : Option OpObs := none
+  onclose : Nat := 0
+  notifies : Nat := 0
+  failedAt : Option (Nat × String) := none
+
+def feed (rs : Array Rec) (ops : Array OpIn) (n : Nfa) (j : Nat) (r : Rec) : Nfa :=
+  if n.failedAt.isSome then n else
+  let fail (n' : Nfa) (why : String) : Nfa :=
+    if n'.cfgs.isEmpty then { n' with failedAt := some (j, why) } else n'
+  match r.t with
+  | "call" =>
+    -- look ahead to the matching return
+    let retIdx := findFrom rs (j + 1) fun x => x.t == "ret" && x.op == r.op && x.i == r.i
+    match retIdx with
+    | none => { n with failedAt := some (j, s!"no ret record for {r.op}#{r.i}") }
+    | some rj =>
+      let ret := rs[rj]!
+      let inScript : String := match ops[r.i]? with | some o => o.script | none => ""
+      let base : Script := (parseScript inScript).getD .ok
+      -- a drop of this call's connection recorded before the call returned decides the stage
+      let script : Script :=
+        if r.op == "start" && ret.conn > 0 then
+          match findFrom rs (j + 1) fun x => x.t == "cut" && x.conn == ret.conn with
+          | some cj => if cj < rj then (match rs[cj]!.facts with | some f => stageOf f | none => base) else base
+          | none => base
+        else base
+      let pd : OpObs := mkObs r.op script ret
+      let cs := n.cfgs.map fun c => { c with applied := false }
+      { n with pending := some pd, cfgs := closure (some pd) cs 64 }
+  | "ret" =>
+    let cs := n.cfgs.filter (·.applied)
+    fail { n with pending := none, cfgs := closure none cs 64 }
+      s!"{r.op}#{r.i} returned {r.res} {r.kind} (dialed={r.dialed} conn={r.conn} sid={r.sid}): not a possible step of the session machine"
+  | "notify" =>
+    let cs := n.cfgs.filter fun c => c.s.fired.contains r.sid
+    fail { n with cfgs := cs, notifies := n.notifies + 1 }
+      s!"close handler of session {r.sid} completed although no notification of it can have run"
+  | "onclose" =>
+    let oc := n.onclose + 1
+    let cs := n.cfgs.filter fun c => oc ≤ c.s.fired.length
+    fail { n with cfgs := cs, onclose := oc } s!"onClose callback #{oc}: more callbacks than close notifications"
+  | "cut" =>
+    -- a drop absorbed into a pending/earlier Start (recorded before that Start returned) is
+    -- part of its script; otherwise it is a connection loss now
+    let absorbed : Bool :=
+      match findFrom rs 0 fun x => x.t == "ret" && x.op == "start" && x.conn == r.conn with
+      | some rj => j < rj
+      | none => true
+    if absorbed then n else
+      let cs := n.cfgs.map fun c => { c with s := loseConn r.conn c.s }
+      { n with cfgs := closure n.pending (dedup cs) 64 }
+  | "end" =>
+    if r.res == "complete" then
+      let cs := n.cfgs.filter fun c => c.s.inflight.isEmpty && c.s.cur == r.clients && !c.s.started
+      fail { n with cfgs := cs }
+        s!"end: clients={r.clients} onclose={n.onclose}: the machine cannot be quiescent here"
+    else n
+  | _ => n
+
+def runNfa (rs : Array Rec) (ops : Array OpIn) : Nfa :=
+  (List.range rs.size).foldl (fun n j => feed rs ops n j rs[j]!) { cfgs := [{ s := init, applied := true }] }
+
+/-! ### the property, directly on the records -/
+
+structure SpecFail where
+  sig : String
+  why : String
+
+/-- stage (script) of the start whose `ret` is at `rj` -/
+def startStage (rs : Array Rec) (ops : Array OpIn) (rj : Nat) : String :=
+  let ret := rs[rj]!
+  let inScript : String := match ops[ret.i]? with | some o => o.script | none => "ok"
+  if ret.conn > 0 then
+    match findFrom rs 0 fun x => x.t == "cut" && x.conn == ret.conn with
+    | some cj => if cj < rj then (match rs[cj]!.facts with | some f => scriptName (stageOf f) | none => inScript)
+                 else (if inScript == "cut" then "ok" else inScript)
+    | none => if inScript == "cut" then "ok" else inScript
+  else if inScript == "cut" then "ok" else inScript
+
+/-- Was the stub observably not started just before record `j`? (no successful Start so
+    far, or since the last one a Stop returned or that session's close handler completed) -/
+def observablyDown (rs : Array Rec) (j : Nat) : Bool :=
+  let before := (rs.toList.take j)
+  let notified := before.filterMap fun r => if r.t == "notify" then some r.sid else none
+  let up := before.foldl (fun up r =>
+    if r.t == "ret" && r.op == "start" && r.res == "ok" then r.sid
+    else if r.t == "ret" && r.op == "stop" && r.res == "returned" then 0
+    else up) 0
+  up == 0 || notified.contains up
+
+/-- The session the records show as established and not yet ended by the harness or the
+    runtime end just before record `j` (0 = none): the last successful Start's, unless a
+    Stop was called, the runtime end dropped its connection (`lose`, `cut`) since. -/
+def expectedLive (rs : Array Rec) (j : Nat) : Nat × Nat :=
+  let pre := rs.toList.take j
+  pre.zipIdx.foldl (fun (acc : Nat × Nat) (ri : Rec × Nat) =>
+    let r := ri.1
+    if r.t == "ret" && r.op == "start" && r.res == "ok" then
+      -- a drop of this connection recorded before Start returned: established and lost
+      if (pre.take ri.2).any (fun x => x.t == "cut" && x.conn == r.conn) then (0, 0) else (r.sid, r.conn)
+    else if r.t == "call" && r.op == "stop" then (0, 0)
+    else if r.t == "call" && r.op == "lose" then (0, 0)
+    else if r.t == "cut" && r.conn == acc.2 then (0, 0)
+    else acc) (0, 0)
+
+def specCheck (rs : Array Rec) (ops : Array OpIn) : Option SpecFail := Id.run do
+  let n := rs.size
+  let mut notifiedSoFar : List Nat := []
+  let mut oc := 0
+  for j in [0:n] do
+    let r := rs[j]!
+    -- P1 start/stop return
+    if r.t == "ret" && r.res == "blocked" && (r.op == "start" || r.op == "stop") then
+      let st := if r.op == "start" then startStage rs ops j else "-"
+      return some ⟨s!"C16:blocked:{r.op}:{st}",
+        s!"{r.op}#{r.i} (runtime end: {st}) had not returned when the deadline passed"⟩
+    -- P1' Start returns nil only once the plugin has been configured on THAT connection
+    if r.t == "ret" && r.op == "start" && r.res == "ok" then
+      let st := startStage rs ops j
+      let configured := (rs.toList.take j).any fun x => x.t == "cfg" && x.i == r.i && x.res == "ok"
+      if !configured || st == "dropReg" || st == "dropCfg" then
+        return some ⟨"C16:start-ok-unconfigured",
+          s!"start#{r.i} (runtime end: {st}) returned nil although the plugin's Configure callback had not completed for this connection"⟩
+    -- P2 wait returns
+    if r.t == "ret" && r.op == "wait" && r.res == "blocked" then
+      return some ⟨"C16:blocked:wait", s!"wait#{r.i} did not return although the stub had observably stopped"⟩
+    -- P4 restartable
+    if r.t == "ret" && r.op == "start" then
+      let callIdx := (findFrom rs 0 fun x => x.t == "call" && x.op == "start" && x.i == r.i).getD j
+      let st := startStage rs ops j
+      if st == "ok" && observablyDown rs callIdx then
+        if r.res != "ok" then
+          let sig := if !r.dialed then "C16:restart-failed:no-fresh-connection" else s!"C16:restart-failed:{r.kind}"
+          return some ⟨sig, s!"start#{r.i} against a healthy runtime end, stub observably not started: returned {r.res} {r.kind} (dialed={r.dialed})"⟩
+    -- P5 a live session is not torn down by anything but its own stop/loss
+    if r.t == "ret" && (r.op == "dispatch" || r.op == "update") && r.res != "ok" then
+      let callIdx := (findFrom rs 0 fun x => x.t == "call" && x.op == r.op && x.i == r.i).getD j
+      let (live, _) := expectedLive rs callIdx
+      let (live2, _) := expectedLive rs j
+      if live != 0 && live2 == live then
+        let late := notifiedSoFar.any (· == live)
+        return some ⟨"C16:live-session-torn-down",
+          s!"{r.op}#{r.i} failed ({r.res}) on session {live}, which nobody stopped and whose connection was not dropped (its close handler had run: {late})"⟩
+    if r.t == "notify" then
+      let (live, _) := expectedLive rs j
+      if live != 0 && live == r.sid then
+        return some ⟨"C16:live-session-torn-down",
+          s!"close handler of session {r.sid} ran although nobody stopped it and its connection was not dropped"⟩
+      -- P3 at most once
+      if notifiedSoFar.contains r.sid then
+        return some ⟨"C16:onclose:twice", s!"close handler of session {r.sid} completed twice"⟩
+      notifiedSoFar := notifiedSoFar ++ [r.sid]
+      if oc < notifiedSoFar.length then
+        return some ⟨"C16:onclose:missing", s!"close handler of session {r.sid} completed but onClose ran only {oc} times for {notifiedSoFar.length} handlers"⟩
+    if r.t == "onclose" then
+      oc := oc + 1
+    if r.t == "end" && r.res == "complete" then
+      if r.waitsLeft != 0 then
+        return some ⟨"C16:blocked:wait", s!"{r.waitsLeft} Wait call(s) still blocked after the final Stop"⟩
+      let missing := (List.range r.clients).map (· + 1) |>.filter fun sid => !notifiedSoFar.contains sid
+      if !missing.isEmpty then
+        return some ⟨"C16:onclose:never", s!"sessions {missing}: close handler never ran (all connections closed, deadline passed)"⟩
+      if oc != r.clients then
+        return some ⟨"C16:onclose:count", s!"{r.clients} sessions, onClose ran {oc} times"⟩
+  return none
+
+def judgeHist (inp obs : Json) : Except String Verdict := do
+  let opsJ ← getArr inp "ops"
+  let ops ← opsJ.mapM decodeOp
+  let opsA := ops.toArray
+  let excluded := getBoolD inp "excluded"
+  let stream := getStrD inp "stream" "?"
+  let worker := getStrD obs "worker"
+  if worker != "" then
+    return { agree := false, spec := false, sig := s!"C16:worker-{worker}",
+             why := s!"worker process {worker} on this history: {getStrD obs "detail"}",
+             cover := ["stream:" ++ stream], nontrivial := true, excluded := excluded }
+  let recsJ ← getArr obs "recs"
+  let recs ← recsJ.mapM decodeRec
+  let rs := recs.toArray
+  let nfa := runNfa rs opsA
+  let agree := nfa.failedAt.isNone && !nfa.cfgs.isEmpty
+  let sf := specCheck rs opsA
+  -- coverage
+  let mut cover : List String := ["trace", "stream:" ++ stream]
+  let mut lateNotify := false
+  for j in [0:rs.size] do
+    let r := rs[j]!
+    if r.t == "ret" && r.op == "start" then
+      let st := startStage rs opsA j
+      cover := cover ++ [s!"start:{st}:{r.res}{if r.kind != "" then ":" ++ r.kind else ""}"]
+      match opsA[r.i]? with
+      | some o => if o.script == "cut" then cover := cover ++ [s!"cut:{o.dir}:{st}"]
+      | none => pure ()
+    if r.t == "ret" && (r.op == "wait" || r.op == "dispatch" || r.op == "update" || r.op == "lose" || r.op == "await") then
+      cover := cover ++ [s!"{r.op}:{r.res}"]
+    if r.t == "notify" then
+      -- did this notification arrive while a LATER session was already established?
+      let (live, _) := expectedLive rs j
+      if live != 0 && live != r.sid && r.sid < live then lateNotify := true
+    if r.t == "end" then cover := cover ++ [s!"end:{r.res}"]
+  if lateNotify then cover := cover ++ ["notify:late-while-later-session-live"]
+  let starts := ops.filter (·.op == "start") |>.length
+  let ends := ops.filter (fun o => o.op == "stop" || o.op == "lose") |>.length
+  let nontrivial := starts ≥ 2 || (starts ≥ 1 && ends ≥ 1)
+  let why := match sf with
+    | some f => f.why
+    | none => match nfa.failedAt with
+      | some (j, w) => s!"record {j}: {w}"
+      | none => if nfa.cfgs.isEmpty then "no run of the session machine matches" else ""
+  pure { agree := agree, spec := sf.isNone, sig := (sf.map (·.sig)).getD "", why := why,
+         cover := cover.eraseDups, nontrivial := nontrivial, excluded := excluded,
+         model := Json.mkObj [("configs", nfa.cfgs.length)] }
+
+def judge (j : Json) : Except String Verdict := do
+  let inp ← getObj j "in"
+  let obs ← getObj j "obs"
+  match getStrD inp "kind" with
+  | "hist" => judgeHist inp obs
+  | k => throw s!"unknown case kind {k}"
+
 def main : IO UInt32 := runLines judge
 end Drv.C16
